@@ -588,8 +588,11 @@ class dir_archive(archive):
             name = tempfile.mktemp(prefix="_____", dir="").replace("-","_")
             _arg = ".__args__" if input else ""
             string = "from %s%s import memo as %s; sys.modules.pop('%s%s', None); sys.modules.pop('%s', None)" % (base, _arg, name, base, _arg, base)
+            nocache = sys.dont_write_bytecode
             try:
                 sys.path.insert(0, root)
+                # cached bytecode goes stale if the file is rewritten quickly
+                sys.dont_write_bytecode = True
                 exec(string, globals()) #FIXME: unsafe, potential name conflict
                 memo = globals().get(name)# None) #XXX: error if not found?
                 globals().pop(name, None)
@@ -597,6 +600,7 @@ class dir_archive(archive):
                 raise KeyError(key)
                #raise OSError("error reading directory for '%s'" % key)
             finally:
+                sys.dont_write_bytecode = nocache
                 sys.path.remove(root)
         return memo
     def _store(self, key, value, input=False):
@@ -742,8 +746,11 @@ class file_archive(archive):
             name = tempfile.mktemp(prefix="_____", dir="").replace("-","_")
             os.chdir(root)
             string = "from %s import memo as %s; sys.modules.pop('%s')" % (file, name, file)
+            nocache = sys.dont_write_bytecode
             try:
                 sys.path.insert(0, root) # the current directory may not be in path
+                # cached bytecode goes stale if the file is rewritten quickly
+                sys.dont_write_bytecode = True
                 exec(string, globals()) #FIXME: unsafe, potential name conflict
                 memo = globals().get(name, {}) #XXX: error if not found ?
                 globals().pop(name, None)
@@ -751,6 +758,7 @@ class file_archive(archive):
                 memo = {}
                #raise OSError("error reading file archive %s" % filename)
             finally:
+                sys.dont_write_bytecode = nocache
                 sys.path.remove(root)
                 os.chdir(curdir)
         return memo
